@@ -1,20 +1,30 @@
-"""C02 - THROW-AWAY main of the peephole half (tools/props/c02_peep.py).  The
-final tools/props/c02.py is assembled at merge from the constant-folder half
-and this one; it only has to build the Ctx and call c02_peep.run(ctx, tier)."""
+"""C02 - optimisation and compile-time evaluation never change behaviour.
+Two halves: the constant folder (coq/Props/C02_fold_part.v, tools/props/c02_fold.py)
+and the peephole pass (coq/Props/C02_peep_part.v, tools/props/c02_peep.py)."""
 import json
-from vlib import Ctx
-from props import c02_peep
+import vlib
+from props import c02_fold, c02_peep
 
 PROP = 'C02'
 
 
 def main(tier, seed):
-    ctx = Ctx(PROP, tier, seed, 'proof')
+    ctx = vlib.Ctx(PROP, tier, seed, 'proof')
     ctx.trusted_base = [
-        'Coq 8.16.1 kernel; theorems closed under the global context (no axioms)',
-        'extraction ExtrOcamlBasic only; Z/positive inductive; floats are the Z-based Base/Fl.v',
-        'unverified glue: ocaml/driver.ml, tools/vlib',
+        'Coq 8.16.1 kernel (coqc, full .vo build; vm_compute in refutation witnesses and Examples)',
+        'no axioms: every theorem prints "Closed under the global context"',
+        'extraction: ExtrOcamlBasic only; Z, positive kept inductive; floats are Base/Fl.v software floats',
+        'machine model Models/Machine.v + Models/Cpu.v (tied to the real cpu by C07 T-isa/T-run)',
+        'unverified glue: ocaml/driver.ml, tools/vlib, the harness modules of both halves',
     ]
+    # folder half: theorems of Props/C02_fold_part.v
+    ctx.prop = 'C02_fold_part'
+    ctx.prove()
+    ctx.prop = PROP
+    ctx.checker_cmd = ctx.checker_cmd.replace('C02.v', 'C02_fold_part.v')
+    if not ctx.broken:
+        c02_fold.run(ctx, tier)
+    # peephole half: proves Props/C02_peep_part.v itself and adds its obligations
     c02_peep.run(ctx, tier)
     return ctx.finish()
 
